@@ -91,7 +91,7 @@ theorem block_push_total (c : Codec) (b : Block) (payload : Bytes) (esi : Nat)
     `dw_loop_no_hang_contract`. -/
 theorem dw_loop_no_hang (P : Params) (pkt : Bytes) :
     ∀ (fuel off : Nat) (stalled : Bool), off ≤ pkt.length → 2 * (pkt.length - off) + (if stalled then 1 else 2) ≤ fuel →
-      (∀ s x, decoderRead P P.dzFuel s x ≠ .error .hang) →
+      (∀ s x, decoderRead P (P.dzFuel x) s x ≠ .error .hang) →
       ∀ st w, dwLoop P fuel st w pkt off stalled ≠ .error .hang := by
   intro fuel
   induction fuel with
@@ -127,25 +127,51 @@ theorem dw_loop_no_hang (P : Params) (pkt : Bytes) :
 
 /-- `decode_write_pkt`'s loop never hangs for a decompressor meeting path's `DzContract` (a measure of the output it can still hand out,
     used up by every non-empty read - measured on the real flate2 decoders by engine `ring`, op `dc`) whose measure stays below the
-    model's inner fuel `P.dzFuel` (adequacy of the fuel constant). -/
-theorem dw_loop_no_hang_contract (P : Params) (C : Flute.Lemmas.DrainObj.DzContract P)
-    (hfuel : ∀ c hist avail, C.mu c hist avail < P.dzFuel) (pkt : Bytes) (st : St) (w : BW) :
+    model's inner fuel function `P.dzFuel w` at every call (`DzOK`). -/
+theorem dw_loop_no_hang_contract (P : Params) (D : DzOK P) (pkt : Bytes) (st : St) (w : BW) :
     dwLoop P (2 * pkt.length + 2) st w pkt 0 false ≠ .error .hang := by
   apply dw_loop_no_hang P pkt _ 0 false (by omega) (by simp)
   intro s x
-  apply Flute.Lemmas.DrainObj.decoderRead_no_hang P C
-  unfold Flute.Lemmas.DrainObj.bwMu
-  cases hx : x.dz with
-  | none => have := hfuel .null [] []; simp only []; omega
-  | some dz => exact hfuel _ _ _
+  exact Flute.Lemmas.DrainObj.decoderRead_no_hang P D.C _ s x (D.fuel x)
 
-/-- non-vacuity of `dw_loop_no_hang_contract`: a decompressor that always answers `Err` meets the contract with measure 0 and any
-    positive fuel -/
+/-- the ECHO decompressor: hands out the ring bytes unchanged, as many as fit the buffer (what an inflater does on stored blocks) -/
+def echoRead : Cenc → List DzCall → DzCall → DzOut :=
+  fun _ _ call => ⟨min call.avail.length call.buflen, .data (call.avail.take call.buflen)⟩
+
+/-- **`DzOK` is satisfiable by a decompressor that PRODUCES DATA** (reviewer batch 3: the earlier `DzOK`, with a constant fuel, was not):
+    for the echo decompressor the measure is the number of bytes waiting in the ring, the fuel function "ring length + 1" is adequate -/
+def echoDzOK (P : Params) (hr : P.dzRead = echoRead)
+    (hf : ∀ w, P.dzFuel w = (match w.dz with | some dz => dz.ring.length | none => 0) + 1) : DzOK P where
+  C := { mu := fun _ _ avail => avail.length
+         read_decreases := by
+           intro c hist call out hres hne
+           rw [hr] at hres ⊢
+           simp only [echoRead] at hres ⊢
+           have ho : out = call.avail.take call.buflen := by cases hres; rfl
+           subst ho
+           have h1 : 0 < call.avail.length := by
+             cases ha : call.avail with
+             | nil => simp [ha] at hne
+             | cons a r => simp
+           have h2 : 0 < call.buflen := by
+             cases hb : call.buflen with
+             | zero => simp [hb] at hne
+             | succ k => omega
+           simp only [List.length_drop]
+           omega }
+  fuel := by
+    intro w
+    rw [hf w]
+    unfold Flute.Lemmas.DrainObj.bwMu
+    cases w.dz <;> simp
+
+/-- non-vacuity of `dw_loop_no_hang_contract` with a decompressor that produces data -/
 example (pkt : Bytes) (st : St) (w : BW) :
     dwLoop { codec := ⟨fun _ _ => false, fun _ _ _ => none, fun _ _ _ _ _ => none, fun _ _ _ => false, fun _ _ _ => none⟩,
-             dzRead := fun _ _ _ => ⟨0, .err⟩, dzFuel := 1, md5 := fun _ => "",
-             env := ⟨fun _ => ⟨.store, true, true, fun _ => true⟩⟩ } (2 * pkt.length + 2) st w pkt 0 false ≠ .error .hang :=
-  dw_loop_no_hang_contract _ ⟨fun _ _ _ => 0, by intro c h call out hres; simp at hres⟩ (by intro _ _ _; exact Nat.zero_lt_one) pkt st w
+             dzRead := echoRead, dzFuel := fun w => (match w.dz with | some dz => dz.ring.length | none => 0) + 1,
+             md5 := fun _ => "", env := ⟨fun _ => ⟨.store, true, true, fun _ => true⟩⟩ }
+      (2 * pkt.length + 2) st w pkt 0 false ≠ .error .hang :=
+  dw_loop_no_hang_contract _ (echoDzOK _ rfl (fun _ => rfl)) pkt st w
 
 /-- `complete()`, `error()`, Drop and `cache()` are total (plain functions of the model: no arithmetic that can overflow except the
     checked addition of `cache`, which returns Err). -/
@@ -249,12 +275,9 @@ satisfiable: under the decompressor contract `DzOK` (path's `DzContract` + "the 
 discharged here, and the end result - `push_no_hang`, `attach_no_hang`, `run_no_hang` - has the contract as its only hypothesis
 (non-vacuity: the `example` at the end instantiates it). -/
 
-theorem decoder_read_no_hang (P : Params) (D : DzOK P) (st : St) (w : BW) : decoderRead P P.dzFuel st w ≠ .error .hang := by
-  apply Flute.Lemmas.DrainObj.decoderRead_no_hang P D.C
-  unfold Flute.Lemmas.DrainObj.bwMu
-  cases hx : w.dz with
-  | none => have := D.fuel .null [] []; simp only []; omega
-  | some dz => exact D.fuel _ _ _
+theorem decoder_read_no_hang (P : Params) (D : DzOK P) (st : St) (w : BW) :
+    decoderRead P (P.dzFuel w) st w ≠ .error .hang :=
+  Flute.Lemmas.DrainObj.decoderRead_no_hang P D.C _ st w (D.fuel w)
 
 theorem bw_write_no_hang (P : Params) (D : DzOK P) (st : St) (sbn : Nat) (blk : Block) : bwWrite P st sbn blk ≠ .error .hang := by
   cases hb : st.bw with
@@ -384,6 +407,26 @@ theorem push_no_hang (P : Params) (D : DzOK P) (st : St) (p : Pkt) : push P st p
               · simp
               · simp
 
+theorem attach_core_no_hang (P : Params) (D : DzOK P) (st : St) (id : Nat) (f : FileEntry) :
+    attachCore P st id f ≠ .error .hang := by
+  unfold attachCore
+  split
+  · rename_i e heq; intro hc; simp at hc; subst hc
+    unfold attachMeta at heq
+    dsimp only at heq
+    split at heq <;> cases heq
+  · split
+    · rename_i e heq; intro hc; simp at hc; subst hc; exact init_blocks_partitioning_no_hang _ heq
+    · split
+      · rename_i e heq; intro hc; simp at hc; subst hc; exact init_object_writer_no_hang _ _ heq
+      · split
+        · rename_i e heq; intro hc; simp at hc; subst hc; exact push_from_cache_no_hang P D _ heq
+        · split
+          · rename_i e heq; intro hc; simp at hc; subst hc; exact write_blocks_nh P D _ _ heq
+          · split
+            · rename_i e heq; intro hc; simp at hc; subst hc; exact push_from_cache_no_hang P D _ heq
+            · simp
+
 /-- **`attach_fdt` never hangs**: any state, any FDT entry -/
 theorem attach_no_hang (P : Params) (D : DzOK P) (st : St) (id : Nat) (f : Option FileEntry) :
     attachFdt P st id f ≠ .error .hang := by
@@ -394,20 +437,17 @@ theorem attach_no_hang (P : Params) (D : DzOK P) (st : St) (id : Nat) (f : Optio
     · simp
     · split
       · rename_i e heq; intro hc; simp at hc; subst hc
-        unfold attachMeta at heq
-        dsimp only at heq
-        split at heq <;> cases heq
-      · split
-        · rename_i e heq; intro hc; simp at hc; subst hc; exact init_blocks_partitioning_no_hang _ heq
-        · split
-          · rename_i e heq; intro hc; simp at hc; subst hc; exact init_object_writer_no_hang _ _ heq
-          · split
-            · rename_i e heq; intro hc; simp at hc; subst hc; exact push_from_cache_no_hang P D _ heq
-            · split
-              · rename_i e heq; intro hc; simp at hc; subst hc; exact write_blocks_nh P D _ _ heq
-              · split
-                · rename_i e heq; intro hc; simp at hc; subst hc; exact push_from_cache_no_hang P D _ heq
-                · simp
+        unfold fdtConflict at heq
+        split at heq
+        · cases heq
+        · split at heq
+          · split at heq
+            · cases heq
+            · split at heq
+              · rename_i e' h'; cases heq; exact liftRs_nh _ h'
+              · cases heq
+          · cases heq
+      · exact attach_core_no_hang P D _ _ _
 
 /-- **no history hangs the object receiver**, from any start state -/
 theorem run_no_hang (P : Params) (D : DzOK P) (st : St) (ops : List Op) : run P st ops ≠ .error .hang := by
@@ -426,12 +466,12 @@ theorem run_no_hang (P : Params) (D : DzOK P) (st : St) (ops : List Op) : run P 
         · cases heq
     · exact ih _
 
-/-- non-vacuity: `DzOK` is inhabited (a decompressor that always answers `Err`, measure 0, fuel 1), so `run_no_hang` applies -/
+/-- non-vacuity: `DzOK` is inhabited by a decompressor that produces data (`echoDzOK`), so `run_no_hang` applies to it -/
 example (st : St) (ops : List Op) :
     run { codec := ⟨fun _ _ => false, fun _ _ _ => none, fun _ _ _ _ _ => none, fun _ _ _ => false, fun _ _ _ => none⟩,
-          dzRead := fun _ _ _ => ⟨0, .err⟩, dzFuel := 1, md5 := fun _ => "",
-          env := ⟨fun _ => ⟨.store, true, true, fun _ => true⟩⟩ } st ops ≠ .error .hang :=
-  run_no_hang _ ⟨⟨fun _ _ _ => 0, by intro c h call out hres; simp at hres⟩, by intro _ _ _; exact Nat.zero_lt_one⟩ st ops
+          dzRead := echoRead, dzFuel := fun w => (match w.dz with | some dz => dz.ring.length | none => 0) + 1,
+          md5 := fun _ => "", env := ⟨fun _ => ⟨.store, true, true, fun _ => true⟩⟩ } st ops ≠ .error .hang :=
+  run_no_hang _ (echoDzOK _ rfl (fun _ => rfl)) st ops
 
 /-! ### `push_total`: no panic and no hang in any reachable state
 
@@ -460,11 +500,11 @@ theorem run_total (P : Params) (D : DzOK P) (toi maxSize : Nat) (hm : maxSize < 
 
 /-- non-vacuity of `run_total`: the hypotheses are met by a concrete parameter set and history -/
 example : ∃ st', run { codec := ⟨fun _ _ => false, fun _ _ _ => none, fun _ _ _ _ _ => none, fun _ _ _ => false, fun _ _ _ => none⟩,
-                       dzRead := fun _ _ _ => ⟨0, .err⟩, dzFuel := 1, md5 := fun _ => "",
-                       env := ⟨fun _ => ⟨.store, true, true, fun _ => true⟩⟩ } (St.new 1 1000)
-      [.attach 1 (some ⟨some ⟨.noCode, 2, 2, 0, none⟩, 3, none, .null, none, false⟩),
+                       dzRead := echoRead, dzFuel := fun w => (match w.dz with | some dz => dz.ring.length | none => 0) + 1,
+                       md5 := fun _ => "", env := ⟨fun _ => ⟨.store, true, true, fun _ => true⟩⟩ } (St.new 1 1000)
+      [.attach 1 (some ⟨some ⟨.noCode, 2, 2, 0, none⟩, 3, none, .gzip, none, false⟩),
        .push ⟨1, .noCode, false, none, none, [0, 0, 0, 0], [1, 2], 20⟩] = .ok st' ∧ TInv st' := by
-  apply run_total _ (DzOK.ofNoData _ (by intro _ _ _ _ h; cases h) (by decide)) 1 1000 (by decide)
+  apply run_total _ (echoDzOK _ rfl (fun _ => rfl)) 1 1000 (by decide)
   intro op hop
   simp at hop
   rcases hop with rfl | rfl
